@@ -8,6 +8,7 @@ import Driver.Ops.Price
 import Driver.Ops.GitSel
 import Driver.Ops.Out
 import Driver.Ops.Scale
+import Driver.Ops.Strict
 /-! Line-protocol driver of the model: one JSON case per input line, one JSON answer per line.
     To add an op: write `Driver/Ops/<Name>.lean`, import it here, add one line to `opTable`
     (or to `outputTable` for a new output kind of op `run`). -/
@@ -20,7 +21,8 @@ def outputTable : List (String × Ops.OutputFn) := [
   ("register", Ops.outRegister),
   ("register_all", Ops.outRegisterAll),
   ("equity", Ops.outEquity),
-  ("baltxt", Ops.outBalanceTxt)
+  ("baltxt", Ops.outBalanceTxt),
+  ("probe", Ops.outProbe)
 ]
 
 /-- ops -/
@@ -36,7 +38,8 @@ def opTable : List (String × (Json → R Json)) := [
   ("gitsel", Ops.opGitSel),
   ("out", Ops.opOut),
   ("bufw", Ops.opBufw),
-  ("fmt", Ops.opFmt)
+  ("fmt", Ops.opFmt),
+  ("strict", Ops.opStrict outputTable)
 ]
 
 def dispatch (j : Json) : R Json := do
